@@ -96,15 +96,18 @@ theorem applyCmd_frame {setOk : String → Bool} {T T' : Table} {cmd : Cmd} {c :
   | del k =>
     simp only [applyCmd] at h
     simp only [cmdChain] at hc
-    split at h
-    · cases h
-    · split at h
-      · cases h
-      · split at h
-        · cases h; rfl
-        · split at h
-          · cases h
-          · cases h; simp [Tbl.get_erase, hc]
+    cases hg : Tbl.get T k with
+    | none => rw [hg] at h; cases h
+    | some rules =>
+      rw [hg] at h
+      simp only at h
+      by_cases hb : isBuiltin k = true
+      · simp [hb] at h
+      · by_cases hr : rules = []
+        · by_cases hf : referenced T k = true
+          · simp [hb, hr, hf] at h
+          · simp [hb, hr, hf] at h; subst h; simp [Tbl.get_erase, hc]
+        · simp [hb, hr] at h
 
 /-! ## batches -/
 
